@@ -95,7 +95,23 @@ def ov : P AForest.Ov := do
   | "scal" => do pure (.scal (← nat) (← int))
   | "label" => do pure (.label (← chars))
   | "sprop" => do pure (.sprop (← nat) (← int))
+  | "ori" => do
+      match (← tok) with
+      | "n" => pure (.ori none)
+      | "v" => do let n ← nat; pure (.ori (some (← many n rot)))
+      | t => throw s!"bad orientation tag {t}"
   | t => throw s!"bad override {t}"
+
+/-- any copy keyword -/
+def kw : P AForest.Kw := do
+  match (← get) with
+  | "parent" :: rest => do
+      set rest
+      let p ← int
+      pure (.parent (if p < 0 then none else some p.toNat))
+  | "children" :: rest => do set rest; pure (.children (← ids))
+  | "badval" :: rest => do set rest; pure .bad
+  | _ => do pure (.attr (← ov))
 
 def cmd : P Cmd := do
   match (← tok) with
@@ -114,7 +130,13 @@ def cmd : P Cmd := do
   | "plus" => do let a ← nat; let b ← nat; pure (.op (.tree (.plus a b)))
   | "bad" => pure (.op (.tree .rejected))
   | "copy" => do let o ← nat; pure (.op (.copy o []))
-  | "acopy" => do let o ← nat; let n ← nat; pure (.op (.copy o (← many n ov)))
+  | "acopy" => do let o ← nat; let n ← nat; pure (.op (.copy o (← many n kw)))
+  | "asetori" => do
+      let x ← nat
+      match (← tok) with
+      | "n" => pure (.op (.setOri x none))
+      | "v" => do let n ← nat; pure (.op (.setOri x (some (← many n rot))))
+      | t => throw s!"bad orientation tag {t}"
   | "amove" => do let x ← nat; let i ← pathIn vec; let s ← start; pure (.op (.move x i s))
   | "arot" => do let x ← nat; let r ← pathIn rot; let an ← anchor; let s ← start; pure (.op (.rotate x r an s))
   | "asetpos" => do let x ← nat; let n ← nat; pure (.op (.setPos x (← many n vec)))
